@@ -46,6 +46,9 @@ func (f Flat) Expand() Unit {
 	u := Unit{Conn: f.Conn, Form: f.Form, Sep: f.Sep, Case: "upper"}
 	if f.Form == "empty" {
 		u.Empty = f.Shape
+		if f.Sep == "inl" {
+			u.Inline, u.Sep, u.Conn = true, "sp", "W"
+		}
 		return u
 	}
 	x := atomOf(f.X)
@@ -142,7 +145,9 @@ func replay(args []string) error {
 		softs = []bool{true}
 	case "c09":
 		fins = []Fin{{Kind: "update"}, {Kind: "updates"}, {Kind: "updatecol"}, {Kind: "updatecols"}, {Kind: "delete"},
-			{Kind: "update", Allow: "session"}, {Kind: "delete", Allow: "session"}, {Kind: "delete", Unscoped: true}}
+			{Kind: "update", Allow: "session"}, {Kind: "delete", Allow: "session"}, {Kind: "delete", Unscoped: true},
+			{Kind: "update", Prior: "count", Clone: "session"}, {Kind: "delete", Prior: "noop_updates", Clone: "withctx"},
+			{Kind: "updates", Prior: "find", Clone: "debug"}}
 	}
 	for i := *from; i < *to; i++ {
 		var fc flatCase
@@ -286,6 +291,13 @@ func randEmptyChain(r *rand.Rand) ([]Unit, []Fin) {
 	}
 	if r.Intn(6) == 0 {
 		fin.PK = int64(1 + r.Intn(5))
+	}
+	if fin.Kind == "delete" && r.Intn(3) == 0 { // empty inline condition given to Delete itself
+		chain = append(chain, Unit{Conn: "W", Form: "empty", Empty: empties[r.Intn(4)], Inline: true})
+	}
+	if fin.Allow != "config" && r.Intn(3) == 0 { // the chain value was used before and derived again
+		fin.Prior = []string{"count", "noop_updates", "find"}[r.Intn(3)]
+		fin.Clone = []string{"session", "withctx", "debug", ""}[r.Intn(4)]
 	}
 	return chain, []Fin{fin}
 }
